@@ -763,7 +763,7 @@ Proof.
     apply andb_prop in Hok. destruct Hok as [Hok H3]. apply andb_prop in Hok. destruct Hok as [H1 H2].
     destruct (nth_error (ps_kinds p) (Z.to_nat pl)) as [[|e|e]|] eqn:Ek; try discriminate.
     destruct (remote_progress _ w d p gs pl f v e HQS ltac:(lia) Ek ltac:(lia) ltac:(lia))
-      as (p' & gs' & E & HQ' & q & hist & low & q' & Eq & Eg & -> & Hqs' & F' & P' & Hc').
+      as (p' & gs' & E & HQ' & q & hist & low & q' & Eq & Eg & -> & Hqs' & F' & P' & Hc' & _ & _).
     cbn [sstep]. rewrite E. cbn [res_bind].
     exists (mksr p' out0 AOk), (updz gs (Z.to_nat pl) (hist ++ [v], low)), g. cbn [sr_state sr_out out0 o_requests exec].
     split; [reflexivity|]. split; [exact HQ'|]. split; [reflexivity|].
